@@ -307,6 +307,29 @@ def load_known(prop):
 
 # ------------------------------------------------------------------ build steps
 
+def gen_closure(start_files):
+    """names of the coq/Gen modules in the transitive import closure of the given .v files (paths relative to coq/)"""
+    seen, gens, todo = set(), set(), list(start_files)
+    while todo:
+        f = todo.pop()
+        if f in seen:
+            continue
+        seen.add(f)
+        path = os.path.join(COQ, f)
+        if not os.path.exists(path):
+            continue
+        with open(path) as fh:
+            txt = fh.read()
+        for m in re.finditer(r"From RV Require (?:Import|Export)\s+(.*?)\.(?:\s|$)", txt, re.S):
+            for name in m.group(1).split():
+                parts = name.split(".")
+                if len(parts) == 2:
+                    if parts[0] == "Gen":
+                        gens.add(parts[1])
+                    todo.append(f"{parts[0]}/{parts[1]}.v")
+    return gens
+
+
 def run_translator(ctx):
     from translator import run as trun
     summary = trun.main(REPO, os.path.join(COQ, "Gen"))
